@@ -4,10 +4,15 @@
    csv.reader produced; `isnum` stands for import_utils._is_numeric and is universally quantified.
    `import_csv = import_csv_gen source_is_repaired`; source_is_repaired = true is /repo's current source (fix commit
    6b8f366 = notes/proposed_fixes/C32-late-wide-row.diff), false the source before it.
-   Statements only; proofs are in Proofs/Csv_proofs.v. *)
+   GristGen.Csv_gen is REGENERATED from the Python source by harness/csv2v.py on every run; the C32_gen_* theorems
+   (proved in Proofs/Csv_bridge.v against the regenerated text) say that every translated function equals the model
+   function, so C32_cells_kept_generated is the property about the code as it is written now.
+   Statements only; proofs are in Proofs/Csv_proofs.v and Proofs/Csv_bridge.v. *)
 From Coq Require Import ZArith List Bool Arith Sorted.
 Import ListNotations.
 Require Import Grist.Model.Csv Grist.Proofs.Csv_proofs.
+Require Import Grist.Lib.CsvPrelude GristGen.Csv_gen Grist.Proofs.Csv_bridge.
+Open Scope nat_scope.
 
 (* THE PROPERTY AT FULL STRENGTH, about the model of /repo's current source (import_csv = import_csv_gen true since
    fix commit 6b8f366): for every grid and all options, all columns have one entry per data row and every cell
@@ -133,3 +138,58 @@ Example C32_repaired_on_witness :
     = [(0, Some [120%Z]); (1, Some [121%Z]); (2, Some [122%Z])] /\
   map c_index (import_csv_gen false no_numbers late_wide_witness default_options) = [0; 1].
 Proof. split; vm_compute; reflexivity. Qed.
+
+(* ---- The tie: functions translated from the source on every run equal the model ------------------------------ *)
+
+(* import_utils.empty *)
+Theorem C32_gen_empty : forall c, g_empty c = empty c.
+Proof. exact gen_empty. Qed.
+
+(* import_utils.column_count_modal *)
+Theorem C32_gen_column_count_modal : forall rows, g_column_count_modal rows = Z.of_nat (column_count_modal rows).
+Proof. exact gen_column_count_modal. Qed.
+
+(* import_utils._count_nonempty *)
+Theorem C32_gen_count_nonempty : forall r, g_count_nonempty r = Z.of_nat (count_nonempty r).
+Proof. exact gen_count_nonempty. Qed.
+
+(* import_utils.find_first_non_empty_row *)
+Theorem C32_gen_find_first_non_empty_row : forall rows,
+  g_find_first_non_empty_row rows = zpair (find_first_non_empty_row rows).
+Proof. exact gen_find_first_non_empty_row. Qed.
+
+(* import_utils._is_header *)
+Theorem C32_gen_is_header : forall isnum header rows, g_is_header isnum header rows = is_header isnum header rows.
+Proof. exact gen_is_header. Qed.
+
+(* import_utils.expand_headers *)
+Theorem C32_gen_expand_headers : forall hs off rows,
+  g_expand_headers hs (Z.of_nat off) rows = expand_headers hs off rows.
+Proof. exact gen_expand_headers. Qed.
+
+(* import_utils.headers_guess *)
+Theorem C32_gen_headers_guess : forall isnum rows, g_headers_guess isnum rows = zpair (headers_guess isnum rows).
+Proof. exact gen_headers_guess. Qed.
+
+(* parse_data.get_table_data (converter objects on str cells as in Lib/CsvPrelude.v) *)
+Theorem C32_gen_get_table_data : forall rows n nr,
+  g_get_table_data rows (Z.of_nat n) nr = map get_grist_column (get_table_data (take_rows nr rows) n).
+Proof. exact gen_get_table_data. Qed.
+
+(* import_csv._parse_open_file from after `rows = list(reader)` to before `if not table_data:`: the translated
+   statements compute exactly the columns of the repaired model (column_metadata ids + data, table_data) *)
+Theorem C32_gen_parse_rows : forall isnum o rows,
+  g_parse_rows isnum o rows
+  = (map mk_cd (import_csv_gen true isnum rows o), map c_data (import_csv_gen true isnum rows o)).
+Proof. exact gen_parse_rows. Qed.
+
+(* THE PROPERTY ABOUT THE TRANSLATED SOURCE: what the translated statements of _parse_open_file export are columns
+   that keep every cell. *)
+Theorem C32_cells_kept_generated : forall isnum o g,
+  exists cols, g_parse_rows isnum o g = (map mk_cd cols, map c_data cols) /\
+               cells_kept (csv_data_rows isnum g o) cols /\
+               StronglySorted lt (map c_index cols).
+Proof.
+  intros isnum o g. exists (import_csv_gen true isnum g o).
+  split; [apply gen_parse_rows | split; [apply repaired_keeps_cells | apply columns_in_order]].
+Qed.
